@@ -25,6 +25,10 @@ def check(run):
     exc(run, p, fc)
     perm(run, p, fc)
     rawremove(run, p, fc)
+    from .. import ief, triage
+    rt = p.cls('ReferenceTest')
+    ief.run_ief(run, 'C04', [p.lookup_method(rt.qn, n) for n in TEXT_ASSERTS], triage=triage.IEF)
+    run.floor('C04-IEF', run.units['ief_functions_checked'], 35)
 
 
 def split(run, p, fc):
